@@ -131,6 +131,12 @@ class Gen:
             return b36(self.r.randrange(2 ** 128))
         return self.r.choice(["abc", "z" * 25, "0" * 24, "head", "cas", "import", "version/", "%41" * 25, ""])
 
+    def op_remove(self):
+        """DELETE a frame that exists: its content may be shared with other frames and must stay retrievable (C10)"""
+        if not self.frames:
+            return self.op_append()
+        self.add({"op": "http", "method": "DELETE", "target": "/@{%d}" % self.r.choice(self.frames)})
+
     def op_get(self):
         self.add({"op": "http", "method": self.r.choice(["GET", "GET", "DELETE"]), "target": "/" + self.id_t()})
 
@@ -279,12 +285,19 @@ class Gen:
         self.add({"op": "http", "method": "GET", "target": "/"})
         for k in self.ctxs:
             self.add({"op": "http", "method": "GET", "target": "/?context-id=@{%d}" % k})
+        # content written once stays retrievable whatever was removed, evicted or expired since (C10)
+        seen = []
+        for b in self.hashes:
+            if b not in seen:
+                seen.append(b)
+        for b in seen[:8]:
+            self.add({"op": "http", "method": "GET", "target": "/cas/" + ssri(b), "read_ms": 4000})
         return self.ops
 
 
 WEIGHTS = {
-    "C13": {"append": 30, "get": 14, "cat": 14, "head": 8, "cas": 8, "import": 8, "misc": 8, "head_follow": 3, "cat_follow_bg": 3, "cat_follow_pulse": 2, "register": 2, "bad_body": 4},
-    "C10": {"append": 40, "cas": 30, "get": 5, "cat": 8, "head": 4, "import": 3, "misc": 3, "cat_follow_bg": 5, "bad_body": 5},
+    "C13": {"append": 30, "get": 14, "cat": 14, "head": 8, "cas": 8, "import": 8, "misc": 8, "head_follow": 3, "cat_follow_bg": 3, "cat_follow_pulse": 2, "register": 2, "bad_body": 4, "remove": 3},
+    "C10": {"append": 40, "cas": 30, "get": 5, "remove": 10, "cat": 8, "head": 4, "import": 3, "misc": 3, "cat_follow_bg": 5, "bad_body": 5},
     "C06": {"append": 35, "cat": 15, "head": 12, "head_follow": 12, "cat_follow_bg": 10, "register": 6, "get": 4, "import": 4},
 }
 
